@@ -74,6 +74,8 @@ pub struct Sim {
     pub fail_main: Arc<std::sync::atomic::AtomicBool>,
     /// `world h`
     pub hworld: bool,
+    /// tracker height when the simulator finished its set-up
+    pub base_height: u32,
 }
 
 fn services(persister: Arc<dyn Persist>, clock: Arc<ManualClock>, perm: bool) -> NodeServices {
@@ -259,6 +261,7 @@ impl Sim {
         node_ctx.node.add_keysend(make_test_pubkey(1), PaymentHash([4; 32]), 12_000_000).unwrap();
         let _ = persister.prepare();
         persister.commit().unwrap();
+        let base_height = node_ctx.node.get_chain_height();
         Sim {
             persister,
             clock,
@@ -279,6 +282,7 @@ impl Sim {
             fail_store,
             fail_main,
             hworld,
+            base_height,
         }
     }
 
@@ -1071,6 +1075,15 @@ pub fn gen_ops(rng: &mut Rng, len: usize) -> Vec<String> {
             }
             7 if ops.len() < 3 => {
                 ops.push(format!("osign {}", if rng.chance(1, 2) { "g" } else { "b" }));
+                continue;
+            }
+            12 => {
+                // let stubs age past the prune horizon (six blocks), heartbeat, re-create
+                let d = rng.range(1, 5);
+                ops.push(format!("newch {}", d));
+                ops.push(format!("blkn {}", *rng.pick(&[5u64, 6, 7, 8])));
+                ops.push("hb".to_string());
+                if rng.chance(1, 2) { ops.push(format!("newch {}", d)); }
                 continue;
             }
             11 if ops.len() < 4 => {
